@@ -112,6 +112,8 @@ def run_case(case, rep, record=True):
             for e, m in zip(envs, MODE_LIST):
                 a = int(idx) if m["flat_actions"] else (list(vec) if (nops + idx) % 2 else np.array(vec))
                 np.random.seed(seed)
+                if nops % 4 == 1:
+                    e.action_space.sample()     # the space's own generator: not part of the dynamics
                 outs.append(e.step(a))
             ref = outs[0]
             ref_t = envs[0].current_state.tensor
